@@ -1,1 +1,273 @@
 // Kani contract harnesses for /repo/arrow-avro/src/reader/vlq.rs (child module: sees private items via super::)
+use super::*;
+#[path = "/verif/kani/support/spec.rs"]
+mod spec;
+use spec::*;
+
+// ---------------------------------------------------------------------------------------------
+// Independent specification of the Avro `long` wire format (Avro 1.11 spec, "binary encoding":
+// zig-zag, then base-128 little-endian groups with a continuation bit).
+// ---------------------------------------------------------------------------------------------
+
+/// what a byte string means as ONE varint, by the format definition
+#[derive(PartialEq, Eq, Clone, Copy)]
+enum Varint {
+    /// terminated within 10 bytes and representable in 64 bits: (value, bytes used)
+    Value(u64, usize),
+    /// the 10th byte (index 9) would carry bits beyond 2^64 or a continuation bit
+    Malformed,
+    /// input ends before a terminator (fewer than 10 bytes seen)
+    Incomplete,
+}
+
+fn spec_varint(buf: &[u8], n: usize) -> Varint {
+    let mut v = 0u64;
+    let mut i = 0;
+    while i < n && i < 10 {
+        let b = buf[i];
+        if i == 9 && b >= 2 {
+            return Varint::Malformed;
+        }
+        v |= ((b & 0x7f) as u64) << (7 * i);
+        if b & 0x80 == 0 {
+            return Varint::Value(v, i + 1);
+        }
+        i += 1;
+    }
+    Varint::Incomplete
+}
+
+/// zig-zag decoding by its arithmetic definition (128-bit): even u -> u/2, odd u -> -(u+1)/2
+fn unzigzag(u: u64) -> i64 {
+    let w = u as i128;
+    (if u & 1 == 0 { w / 2 } else { -((w + 1) / 2) }) as i64
+}
+
+/// canonical (shortest) encoding of a zig-zag image: groups of 7 bits, least significant first
+fn spec_encode(zz: u64) -> ([u8; 10], usize) {
+    let bitlen = 64 - zz.leading_zeros() as usize;
+    let len = if zz == 0 { 1 } else { (bitlen + 6) / 7 };
+    let mut out = [0u8; 10];
+    let mut i = 0;
+    while i < len {
+        let g = ((zz >> (7 * i)) & 0x7f) as u8;
+        out[i] = if i + 1 < len { g | 0x80 } else { g };
+        i += 1;
+    }
+    (out, len)
+}
+
+fn any_input<const N: usize>() -> ([u8; N], usize) {
+    let a: [u8; N] = kani::any();
+    let n: usize = kani::any();
+    kani::assume(n <= N);
+    (a, n)
+}
+
+/// Feeds `bytes[from..to]` to the decoder; returns (result tag, value, bytes consumed from this chunk).
+/// tag: 0 = Ok(None) (needs more), 1 = Ok(Some(v)), 2 = Err
+fn feed(d: &mut VLQDecoder, bytes: &[u8], from: usize, to: usize) -> (u8, i64, usize) {
+    let mut s: &[u8] = &bytes[from..to];
+    let r = d.long(&mut s);
+    let used = (to - from) - s.len();
+    let out = match &r {
+        Ok(None) => (0, 0, used),
+        Ok(Some(v)) => (1, *v, used),
+        Err(_) => (2, 0, used),
+    };
+    std::mem::forget(r);
+    out
+}
+
+// Contract (C08, C17): VLQDecoder::long from the initial state on ANY byte string of <= 12 bytes, one call:
+//  Ok(Some(x))  iff the string starts with a well-formed varint (terminator within 10 bytes, 10th byte < 2);
+//               x is the zig-zag decoding of its value, exactly its bytes are consumed, state is reset;
+//  Err          iff the first 9 bytes all have the continuation bit and a 10th byte >= 2 follows — the
+//               decoder consumes the 9 bytes, resets its state, and never shifts by >= 64 (no panic);
+//  Ok(None)     otherwise (input exhausted inside the varint): everything consumed, state = the partial
+//               value (in_progress = value of the groups so far, shift = 7 * bytes).
+// Stub: alloc::fmt::format.
+// @unit name=vlq_long_oneshot_def props=C08,C17 kind=complete fns=VLQDecoder::long timeout=480 mem=3
+#[kani::proof]
+#[kani::unwind(14)]
+#[kani::stub(alloc::fmt::format, stub_format)]
+fn vlq_long_oneshot_def() {
+    let (a, n) = any_input::<12>();
+    let mut d = VLQDecoder::default();
+    let (tag, val, used) = feed(&mut d, &a, 0, n);
+    match spec_varint(&a, n) {
+        Varint::Value(u, k) => {
+            assert!(tag == 1 && val == unzigzag(u) && used == k);
+            assert!(d.in_progress == 0 && d.shift == 0);
+        }
+        Varint::Malformed => {
+            assert!(tag == 2 && used == 9);
+            assert!(d.in_progress == 0 && d.shift == 0);
+        }
+        Varint::Incomplete => {
+            assert!(tag == 0 && used == n && n < 10);
+            assert!(d.shift as usize == 7 * n);
+            let j: usize = kani::any();
+            kani::assume(j < 64);
+            // bit j of the partial value is bit (j mod 7) of byte (j div 7)
+            assert!(((d.in_progress >> j) & 1 == 1) == (j < 7 * n && (a[j / 7] >> (j % 7)) & 1 == 1));
+        }
+    }
+    kani::cover!(tag == 1 && used == 10 && val == i64::MIN);
+    kani::cover!(tag == 1 && used == 1 && val == -1);
+    kani::cover!(tag == 2);
+    kani::cover!(tag == 0 && n == 9);
+    kani::cover!(tag == 1 && used < n);
+}
+
+// Contract (C14): VLQDecoder::long is independent of chunking. For every byte string of <= 11 bytes and
+// every way of cutting it into 2 (resp. 3) consecutive chunks — empty chunks included — feeding the
+// chunks one after the other (stopping as soon as a call returns a value or an error, as every caller
+// does) gives the same outcome as feeding the whole string at once: same Ok(None)/Ok(Some(x))/Err, same
+// x, same total number of bytes consumed, same residual decoder state (in_progress, shift).
+// Stub: alloc::fmt::format.
+fn chunked<const CUTS: usize>() {
+    let (a, n) = any_input::<11>();
+    // one shot
+    let mut d1 = VLQDecoder::default();
+    let (t1, v1, u1) = feed(&mut d1, &a, 0, n);
+    // chunked
+    let mut cuts = [0usize; CUTS];
+    let mut prev = 0;
+    let mut i = 0;
+    while i < CUTS {
+        let c: usize = kani::any();
+        kani::assume(c >= prev && c <= n);
+        cuts[i] = c;
+        prev = c;
+        i += 1;
+    }
+    let mut d2 = VLQDecoder::default();
+    let mut from = 0;
+    let mut total = 0;
+    let mut t2 = 0;
+    let mut v2 = 0;
+    let mut i = 0;
+    while i <= CUTS && t2 == 0 {
+        let to = if i < CUTS { cuts[i] } else { n };
+        let (t, v, u) = feed(&mut d2, &a, from, to);
+        total += u;
+        t2 = t;
+        v2 = v;
+        // a chunk is consumed completely unless it produced a value or an error
+        assert!(t != 0 || u == to - from);
+        from = to;
+        i += 1;
+    }
+    assert!(t1 == t2 && v1 == v2 && u1 == total);
+    assert!(d1.in_progress == d2.in_progress && d1.shift == d2.shift);
+    kani::cover!(t1 == 1 && u1 == 10 && cuts[0] == 3);
+    kani::cover!(t1 == 1 && cuts[0] == 0); // empty first chunk
+    kani::cover!(t1 == 1 && cuts[CUTS - 1] == n); // empty last chunk
+    kani::cover!(t1 == 2 && cuts[0] == 9); // the offending 10th byte starts a chunk
+    kani::cover!(t1 == 0 && n == 9 && cuts[0] == 4);
+    kani::cover!(t1 == 1 && u1 < n && cuts[0] > u1); // value ends inside the first chunk
+}
+// @unit name=vlq_long_chunking_2way props=C14 kind=complete fns=VLQDecoder::long tier=quick timeout=480 mem=3
+#[kani::proof]
+#[kani::unwind(13)]
+#[kani::stub(alloc::fmt::format, stub_format)]
+fn vlq_long_chunking_2way() {
+    chunked::<1>()
+}
+// @unit name=vlq_long_chunking_3way props=C14 kind=complete fns=VLQDecoder::long tier=thorough timeout=900 mem=4
+#[kani::proof]
+#[kani::unwind(13)]
+#[kani::stub(alloc::fmt::format, stub_format)]
+fn vlq_long_chunking_3way() {
+    chunked::<2>()
+}
+
+// Contract (C08): on every 10-byte array the unrolled fast path and the generic slow path agree with each
+// other and with the format definition: read_varint_array(b) = read_varint_slow(&b) = Some((value, k)) iff
+// a terminator occurs at index k-1 <= 9 (and the 10th byte, if reached, is < 2), else None; same for
+// skip_varint_array vs the count. (The fast path's add/subtract trick never overflows.)
+// @unit name=varint_fast_slow_agree props=C08 kind=complete fns=read_varint_array,read_varint_slow,skip_varint_array timeout=240
+#[kani::proof]
+#[kani::unwind(12)]
+fn varint_fast_slow_agree() {
+    let b: [u8; 10] = kani::any();
+    let fast = read_varint_array(b);
+    let slow = read_varint_slow(&b);
+    let skip = skip_varint_array(b);
+    assert!(fast == slow);
+    match spec_varint(&b, 10) {
+        Varint::Value(v, k) => assert!(fast == Some((v, k)) && skip == Some(k)),
+        _ => assert!(fast.is_none() && skip.is_none()),
+    }
+    kani::cover!(matches!(fast, Some((u64::MAX, 10))));
+    kani::cover!(matches!(fast, Some((_, 1))));
+    kani::cover!(fast.is_none() && b[9] == 2);
+    kani::cover!(fast.is_none() && b[9] == 0x80);
+}
+
+// Contract (C08): read_varint / skip_varint on ANY byte string of <= 16 bytes (so: the one-byte shortcut,
+// the slow path for < 10 bytes, the array path for >= 10 bytes, trailing garbage): Some((v, k)) iff the
+// string starts with a well-formed varint of k <= 10 bytes (k <= len) whose value is v; None iff there is
+// no terminator within the first 10 bytes / within the input, or the 10th byte is >= 2. skip_varint
+// returns exactly the k of read_varint. skip_varint_slow (precondition len < 10) agrees. Never panics.
+// @unit name=read_varint_def props=C08 kind=bounded bound=input<=16_bytes fns=read_varint,read_varint_array,read_varint_slow,skip_varint,skip_varint_array,skip_varint_slow timeout=480 mem=3
+#[kani::proof]
+#[kani::unwind(12)]
+fn read_varint_def() {
+    let (a, n) = any_input::<16>();
+    let got = read_varint(&a[..n]);
+    let skipped = skip_varint(&a[..n]);
+    match spec_varint(&a, n) {
+        Varint::Value(v, k) => {
+            assert!(got == Some((v, k)) && k <= n && k <= 10);
+            assert!(skipped == Some(k));
+        }
+        _ => assert!(got.is_none() && skipped.is_none()),
+    }
+    if n < 10 {
+        assert!(skip_varint_slow(&a[..n]) == skipped);
+        assert!(read_varint_slow(&a[..n]) == got);
+    }
+    kani::cover!(matches!(got, Some((_, 10))) && n == 16);
+    kani::cover!(matches!(got, Some((_, 9))) && n == 9);
+    kani::cover!(matches!(got, Some((_, 1))) && n == 12);
+    kani::cover!(got.is_none() && n == 9);
+    kani::cover!(got.is_none() && n == 0);
+    kani::cover!(got.is_none() && n >= 10);
+}
+
+// Contract (C17), reader half of the Avro long/int round trip. (The writer half — write_long(x) emits
+// exactly spec_encode(zigzag(x)) — is unit arrow-avro.writer.encoder.avro_write_long_canonical; the two
+// modules are private to different parents, so the composition decode(encode(x)) = x is made through the
+// shared byte-level specification.) For EVERY i64 x: both readers decode the canonical encoding of x
+// (1..=10 bytes) back to x and consume every byte: VLQDecoder::long = Ok(Some(x)); read_varint = the
+// zig-zag image with the full length; every proper prefix is "incomplete" (Ok(None) / None), never a value.
+// Stub: alloc::fmt::format.
+// @unit name=avro_long_decode_canonical props=C17 kind=complete fns=VLQDecoder::long,read_varint timeout=480 mem=3
+#[kani::proof]
+#[kani::unwind(12)]
+#[kani::stub(alloc::fmt::format, stub_format)]
+fn avro_long_decode_canonical() {
+    let x: i64 = kani::any();
+    // zig-zag image by its arithmetic definition: 2x for x >= 0, -2x - 1 for x < 0
+    let zz = (if x >= 0 { 2 * x as i128 } else { -2 * (x as i128) - 1 }) as u64;
+    let (enc, len) = spec_encode(zz);
+    assert!(len >= 1 && len <= 10);
+    let mut d = VLQDecoder::default();
+    let (t, v, u) = feed(&mut d, &enc, 0, len);
+    assert!(t == 1 && v == x && u == len);
+    assert!(read_varint(&enc[..len]) == Some((zz, len)));
+    // a truncated encoding is never taken for a value
+    let cut: usize = kani::any();
+    kani::assume(cut < len);
+    let mut d2 = VLQDecoder::default();
+    let (t2, _, u2) = feed(&mut d2, &enc, 0, cut);
+    assert!(t2 == 0 && u2 == cut);
+    assert!(read_varint(&enc[..cut]).is_none());
+    kani::cover!(x == i64::MIN && len == 10);
+    kani::cover!(x == i64::MAX && len == 10);
+    kani::cover!(x == -1 && len == 1);
+    kani::cover!(x == 64 && len == 2);
+    kani::cover!(x as i32 as i64 == x && len == 5); // an Avro int at its longest
+}
